@@ -3,6 +3,7 @@ package main
 import (
 	"fmt"
 	"go/constant"
+	"go/token"
 	"go/types"
 	"strings"
 
@@ -20,6 +21,8 @@ type Env struct {
 	atEntry bool  // evaluating the verified function's own requires (ownership is granted, not derived)
 	now    *State // the state outside the innermost old(...)
 	qvars  map[string]bool
+	noSplitTrig bool
+	atPos  token.Pos // evaluating at this source position: same-named locals resolve to the nearest one declared before it
 	loop   *loopInfo // evaluating an invariant of this loop: same-named locals resolve to the one the loop assigns
 }
 
@@ -144,6 +147,15 @@ func (g *Gen) evalIdent(env *Env, x *SExpr) *Val {
 		if !(isParam && (env.now != nil || env.cur == g.entry)) {
 			if as := g.localsByName[x.Name]; len(as) > 0 {
 				a := as[0]
+				if env.atPos.IsValid() && len(as) > 1 {
+					best := token.NoPos
+					for _, c := range as {
+						if c.Pos() <= env.atPos && c.Pos() > best {
+							best = c.Pos()
+							a = c
+						}
+					}
+				}
 				if env.loop != nil && len(as) > 1 {
 					for _, c := range as {
 						if env.loop.modVars[c] {
@@ -412,6 +424,33 @@ func findIndexTrigger(e *SExpr, k string) *SExpr {
 	return nil
 }
 
+// allIndexTriggers collects the distinct sub-expressions S[k] (k the bound variable, S free of k).
+func allIndexTriggers(e *SExpr, k string, out *[]*SExpr) {
+	if e == nil {
+		return
+	}
+	if e.Op == "idx" && e.Args[1].Op == "ident" && e.Args[1].Name == k && !mentions(e.Args[0], k) {
+		txt := e.Args[0].String()
+		for _, o := range *out {
+			if o.Args[0].String() == txt {
+				return
+			}
+		}
+		*out = append(*out, e)
+		return
+	}
+	if e.Op == "forall" || e.Op == "exists" {
+		for _, v := range e.Vars {
+			if v.Name == k {
+				return
+			}
+		}
+	}
+	for _, a := range e.Args {
+		allIndexTriggers(a, k, out)
+	}
+}
+
 func mentions(e *SExpr, k string) bool {
 	if e == nil {
 		return false
@@ -428,6 +467,26 @@ func mentions(e *SExpr, k string) bool {
 }
 
 func (g *Gen) evalQuant(env *Env, x *SExpr) *Val {
+	// a body that indexes several slices by the bound variable gets one copy per slice, each phrased
+	// over that slice's absolute index (so each copy can be triggered by a term of "its" array)
+	if len(x.Vars) == 1 && x.Vars[0].Type == "int" && len(x.Trig) == 0 && !env.noSplitTrig {
+		var trs []*SExpr
+		allIndexTriggers(x.Args[0], x.Vars[0].Name, &trs)
+		if len(trs) > 1 && len(trs) <= 3 {
+			var parts []string
+			for _, tr := range trs {
+				c := *x
+				c.Trig = [][]*SExpr{{tr}}
+				e2 := *env
+				e2.noSplitTrig = true
+				parts = append(parts, g.evalQuant(&e2, &c).S)
+			}
+			if x.Op == "forall" {
+				return boolVal(and(parts...))
+			}
+			return boolVal(parts[0])
+		}
+	}
 	n := *env
 	n.vars = map[string]*Val{}
 	for k, v := range env.vars {
